@@ -71,7 +71,7 @@ func genC15(x *Ctx) *c15Scen {
 	}
 	first := c15First[tp.G(len(c15First))]
 	if first != "none" {
-		c := c15Call{Kind: first, Status: []int{200, 201, 404, 500, 202, 42, 1000, 299, 101}[tp.G(9)], N: tp.G(maxN + 1)}
+		c := c15Call{Kind: first, Status: []int{200, 201, 404, 500, 202, 42, 1000, 299, 101, 204, 304}[tp.G(11)], N: tp.G(maxN + 1)}
 		if tp.Chance(60) {
 			c.N = []int{4096, 5000, 8192, 9000}[tp.G(4)] // entities that make the streaming encoders flush more than once
 		}
@@ -118,6 +118,7 @@ type c15CtxKey struct{}
 type c15Obs struct {
 	callErr   []error
 	callFired []bool // the underlying writer returned an injected error during this call
+	callRef   []bool // the underlying writer refused body bytes during this call (status without a body)
 	status    int    // Response.StatusCode() seen by the trailing filter
 	length    int    // Response.ContentLength() seen by the trailing filter
 	hStatus   int    // the same, seen by the handler after its last call
@@ -194,7 +195,7 @@ func c15Exec(sc *c15Scen, mode, failAt int) *c15Obs {
 		}
 		resp.PrettyPrint(sc.Pretty)
 		for _, call := range sc.Calls {
-			before := obs.w.Fired
+			before, refBefore := obs.w.Fired, obs.w.Refused
 			var err error
 			var v interface{}
 			if !call.Nil {
@@ -232,6 +233,7 @@ func c15Exec(sc *c15Scen, mode, failAt int) *c15Obs {
 			}
 			obs.callErr = append(obs.callErr, err)
 			obs.callFired = append(obs.callFired, obs.w.Fired > before)
+			obs.callRef = append(obs.callRef, obs.w.Refused > refBefore)
 		}
 		obs.hStatus, obs.hLength = resp.StatusCode(), resp.ContentLength()
 	}))
@@ -253,6 +255,7 @@ func c15Exec(sc *c15Scen, mode, failAt int) *c15Obs {
 	obs.w = sim.NewSimWriter(sim.Cur())
 	obs.w.Quiet = true
 	obs.w.FaultMode, obs.w.FailAt, obs.w.ShortN = mode, failAt, sc.ShortN
+	obs.w.BodyRule = true // as net/http's writer: no body bytes after 1xx, 204, 304
 	hdr := map[string]string{}
 	if sc.Accept != "" {
 		hdr["Accept"] = sc.Accept
@@ -344,12 +347,19 @@ func runC15(x *Ctx) {
 			if o.length != len(o.w.Body) {
 				x.Violate("length-bookkeeping", "%s: ContentLength() is %d, the underlying writer accepted %d bytes (writes %v accepted %v)", what, o.length, len(o.w.Body), o.w.Chunks, o.w.Accepted)
 			}
+			for i, f := range o.callRef {
+				if f && !o.callFired[i] && !errors.Is(o.callErr[i], http.ErrBodyNotAllowed) {
+					x.Violate("write-error-swallowed", "%s: the underlying writer refused the body of call #%d (%s) with http.ErrBodyNotAllowed (status %d allows none) but the call returned %v", what, i, sc.Calls[i].Kind, o.w.Status(), o.callErr[i])
+				}
+			}
 			for i, f := range o.callFired {
 				if f && !errors.Is(o.callErr[i], sim.ErrSim) {
 					x.Violate("write-error-swallowed", "%s: the underlying writer failed during call #%d (%s) but the call returned %v", what, i, sc.Calls[i].Kind, o.callErr[i])
 				}
 			}
-		} else if v.mode == sim.WFaultNone {
+		} else if st := o.w.Status(); v.mode == sim.WFaultNone && !(st == 204 || st == 304 || (st >= 100 && st < 200)) {
+			// (a status that allows no body makes the writer refuse the coded stream: like a fault, only the
+			// status bookkeeping is judged then)
 			// counted before coding: the compressor accepted exactly the uncoded byte stream
 			if o.length != len(plain.w.Body) {
 				x.Violate("length-bookkeeping", "%s: ContentLength() is %d with the coding in between, the uncoded stream has %d bytes", what, o.length, len(plain.w.Body))
